@@ -52,6 +52,10 @@ def gen_value(rng, U: Universe, f: FS, hostile: float = 0.15) -> Any:
         return tuple(rng.choice([0, 1, 2, 3]) for _ in range(rng.randint(0, 3)))
     if k == "tstr":
         return tuple(gen_str(rng, hostile) for _ in range(rng.randint(0, 3)))
+    if k == "symbol":
+        return rng.choice([None] + U.module.__dict__[f"{U.P}SYMBOLS"])
+    if k == "bytes":
+        return rng.choice([b"", b"abc", b"caf\xe9", b"caf\xe8", b"\xff\xfe", b"\xef\xbf\xbd", b"caf\xc3\xa9", b"\x00", b"abd"])
     if k == "fset":
         n = rng.randint(0, 4)
         pool = [0, 8, 16, 24, 32, 1, 2]
@@ -82,6 +86,7 @@ class TreeGen:
         p_origin: float = 0.5,
         hostile: float = 0.15,
         exclude: tuple[str, ...] = (),
+        opaque: bool = False,
         share: float = 0.0,
         twin: float = 0.1,
         leaf_bias: float = 0.35,
@@ -93,7 +98,8 @@ class TreeGen:
         self.max_width = max_width
         self.p_origin = p_origin
         self.hostile = hostile
-        self.exclude = exclude
+        # the class with an opaque (unserializable, identity-equal) property value takes part only on request
+        self.exclude = tuple(exclude) + (() if opaque else (f"{getattr(U, 'P', 'U')}Handle",))
         self.share = share
         self.twin = twin
         self.leaf_bias = leaf_bias
